@@ -37,4 +37,25 @@ def truthful (res : Res) (final : St) (tr : List Ev) : Bool :=
     (if ses.state = .finished ∨ ses.state = .failed then !final.connected else true)
   | _ => true
 
+/-! ## C09: the client applies the confirmed options before it sends credentials -/
+
+/-- the encryption the server confirmed (the `confirmed` event marks the server's `negotiating`
+reply to the client's selection), if it named one -/
+def confirmedByServer : List Ev → Option Opt
+  | [] => none
+  | .confirmed _ e :: rest => if e ≠ [] then some e else confirmedByServer rest
+  | _ :: rest => confirmedByServer rest
+
+/-- **C09 (client applies before credentials)**: every client envelope that carries credentials is
+written with the client's transport on the encryption the server confirmed. -/
+def cliAppliedRev : List Ev → Bool
+  | [] => true
+  | .emit s enc :: rest =>
+    (if s.auth.isSome then
+      (match confirmedByServer rest with
+       | some b => decide (enc = b)
+       | none => true)
+     else true) && cliAppliedRev rest
+  | _ :: rest => cliAppliedRev rest
+
 end LimeModel.ClientSpec
